@@ -8,9 +8,9 @@ git diff -- src > /tmp/seed/$id.patch
 [ -s /tmp/seed/$id.patch ] || { echo "$id: empty patch"; exit 2; }
 suite=$(cargo test --offline --lib 2>&1 | grep "test result" | head -1)
 demo_with=$(RUSTFLAGS="$flags" cargo test --offline --test seed_demo 2>&1 | grep "test result" | head -1)
-git stash push -q -- src
+git checkout -q -- src     # (no git stash: the stash stack is shared between worktrees)
 demo_without=$(RUSTFLAGS="$flags" cargo test --offline --test seed_demo 2>&1 | grep "test result" | head -1)
-git stash pop -q
+git apply /tmp/seed/$id.patch
 echo "$id suite(with change): $suite"
 echo "$id demo with change:   $demo_with"
 echo "$id demo without:       $demo_without"
